@@ -86,6 +86,7 @@ def run(ctx):
     sys.addaudithook(hook)
 
     root = tempfile.mkdtemp(prefix="vf_c38_")
+    drng = ctx.rng("c38-directory-names")
     try:
         n = 6000 if ctx.quick else 150000
         dcount = 0
@@ -95,7 +96,11 @@ def run(ctx):
                 if d:
                     shutil.rmtree(d, ignore_errors=True)
                 dcount += 1
-                d = os.path.join(root, "d%d" % dcount)
+                # the directory part is the caller's: names with glob / regexp / format metacharacters, blanks and non-ASCII letters are ordinary directory names
+                dn = drng.choice(["d%d", "d%d", "out[1]-%d", "apk [v2] %d", "dump[a-z]x%d", "st*r?%d", "\u00e9t\u00e9 %d", "a{b}%d", "100%%-%d", "(x)+%d$", "[%d", "!%d]"]) % dcount
+                if any(ch in dn for ch in "[]*?{}()%$!"):
+                    ctx.count("directories_with_pattern_metacharacters")
+                d = os.path.join(root, dn)
                 os.mkdir(d)
             name = gen_name(rng, True)
             if "/" in name:
@@ -176,3 +181,4 @@ def run(ctx):
         hook.on = False
         shutil.rmtree(root, ignore_errors=True)
     ctx.require_counter("clean_file_name", 1000)
+    ctx.require_counter("directories_with_pattern_metacharacters", 5)
